@@ -5,7 +5,7 @@ import xml.etree.ElementTree as ET
 from xml.sax.saxutils import escape
 from .common import Broken
 
-ADDRNAME = {"a1": "IP_10.1.1.1", "a2": "IP_10.1.1.2", "a3": "NET_10.1.2.0_24"}
+ADDRNAME = {"a1": "IP_10.1.1.1", "a2": "IP_10.1.1.2", "a3": "NET_10.1.2.0_24", "a6": "IP_2001_db8_1__1", "a9": "IP_10.9.9.9"}
 RADDRNAME = {v: k for k, v in ADDRNAME.items()}
 SVCNAME = {"s80": "tcp 80", "s53": "udp 53", "s22": "tcp 22"}
 RSVCNAME = {v: k for k, v in SVCNAME.items()}
@@ -25,11 +25,32 @@ def members(l, f):
 
 def rule_xml(r):
     extra = "<tag><member>%s</member></tag>" % r["extra"] if r["extra"] else ""
+    if r.get("append"):
+        extra += "<APPEND/>"
     return ('<entry name="%s"><action>%s</action><from><member>z1</member></from><to><member>z2</member></to>'
             "<source>%s</source><destination>%s</destination><service>%s</service>"
             "<application><member>any</member></application><rule-type>interzone</rule-type>%s</entry>" % (
                 r["name"], r["action"], members(sorted(r["src"]), aname), members(sorted(r["dst"]), aname),
                 members(sorted(r["svc"]), sname), extra))
+
+
+def merge_files(case):
+    """(ipv6 text, raw text) of a merge case: complete configurations of their own."""
+    pa = case["tgt"]["parts"]
+    for c in (pa["c6"], pa["craw"]):        # an empty TLA+ function arrives as an empty JSON array
+        for k in ("addrs", "groups", "svcs", "sgroups"):
+            if c[k] == []:
+                c[k] = {}
+    v6 = render(pa["c6"], False) if pa["v6"] else None
+    raw = None
+    if pa["pre"] or pa["app"]:
+        c = copy.deepcopy(pa["craw"])
+        napp = {r["name"] for r in pa["app"]}
+        for r in c["rules"]:
+            if r["name"] in napp:
+                r["append"] = True
+        raw = render(c, False)
+    return v6, raw
 
 
 def svc_xml(v):
